@@ -232,6 +232,32 @@ func (r *runner) run(steps []chainkit.Step, o runOpt, check func(si int, s chain
 		if !check(si, s, err, ob, false) {
 			return
 		}
+		// a peer sends a block the node already has, with other header links (forged ones included): the
+		// links are not part of the block's identity, the copy must change nothing that was verified
+		if o.headerVotes && s.Blk != nil && rng.Chance(1, 8) {
+			var cps []*chainkit.Blk
+			for _, cp := range r.tr.Checkpoints() {
+				if r.stored[cp.Hash] {
+					cps = append(cps, cp)
+				}
+			}
+			if len(cps) > 0 {
+				cp := cps[rng.Intn(len(cps))]
+				b := chainkit.CloneBlock(cp.B)
+				b.SupLinks = r.forgedLinks(rng, cp)
+				_, rerr := r.nd.Chain.ProcessBlock(b)
+				c.Count("stored_blocks_delivered_again_with_forged_links", 1)
+				if !r.nd.Settle(r.net, r.tr, parked) {
+					c.Inconclusive("case %d: engine did not settle after a re-delivered block", c.Index)
+					return
+				}
+				ob2 := r.observe()
+				r.trail = append(r.trail, fmt.Sprintf("AGAIN block h%d %s with forged links => err=%v fin=%s jus=%s best=%s", cp.Height, chainkit.HashShort(cp.Hash), rerr != nil, chainkit.HashShort(ob2.lastFin), chainkit.HashShort(ob2.lastJus), chainkit.HashShort(ob2.best)))
+				if !check(si, s, nil, ob2, false) {
+					return
+				}
+			}
+		}
 		if o.reopenPct > 0 && rng.Intn(100) < o.reopenPct {
 			close(r.stop)
 			nd2, rerr := r.net.Reopen(r.nd, r.g)
